@@ -37,6 +37,7 @@ var locationTable = []struct{ fn, loc string }{
 	{"AddPathSegment", "shared_error_value"}, // a ConstraintError shared between calls (scratch: its path segments)
 	{"inlineShorthand", "shorthand_marks"},   // walk marks of the shorthand guard (scratch L1..L3)
 	{"RootObject", "scope_root_memo"},        // link.root: the memoised root object of a scope
+	{"isEmptyValue", "property_empty_cache"},
 	{"releaseStepData", "step_table"},
 	{"setupStepData", "step_table"}, // steps.table
 	{"ApplyNamespace", "link"},      // link.<ref>
